@@ -340,6 +340,6 @@ pub fn run(ctx: &mut Ctx) {
     // partially miscible system
     let lle: Vec<(String, M)> = vec![("pcsaft:water+hexane".into(), std::sync::Arc::new(feos::ResidualModel::PcSaft(feos::pcsaft::PcSaft::new(zoo::pcsaft_params(&[(&["water"], "gross2002"), (&["hexane"], "gross2001")])))))];
     ctx.run(&lle, |c| format!("lle|{}", c.0), lle_case);
-    ctx.rule = format!("all unordered pairs of the 51 hydrocarbon records of gross2001 with T_c ratio < 1.8 ({} pairs{}; success clause for ratio < 1.5) x T in Tc_low x {:?} x x in {:?} x {{bubble(T), dew(T), bubble(p), dew(p), tp_flash at {:?} of the way from dew to bubble pressure, each flash also warm-started from that equilibrium at (T(1 +- 0.003), p(1 +- 0.01)) through both entry points, bubble/dew points with 4 non-default (inner, outer) option pairs}}; binary_vle (sub- and supercritical), bubble_point_line, dew_point_line on a pair subset; gc-PC-SAFT, SAFT-VR Mie, PR, PeTS, associating and ternary systems; water+hexane LLE flash, heteroazeotrope, lle diagram: conditions whenever Ok. Oracles: common T (exact), common p (1e-6), x_i phi_i equal (1e-5), phases distinct, specified composition/T/p echoed, p_bub >= p_dew, material balance 1e-12, feed between phase compositions, non-default inner options do not change the answer (1e-6), isobaric lle diagram on its temperature grid", ps.len(), if tier == Tier::Quick { ", every 16th" } else { "" }, TRS, XS, WS);
+    ctx.rule = format!("all unordered pairs of the 51 hydrocarbon records of gross2001 with T_c ratio < 1.8 ({} pairs{}; success clause for ratio < 1.5) x T in Tc_low x {:?} x x in {:?} x {{bubble(T), dew(T), bubble(p), dew(p), tp_flash at {:?} of the way from dew to bubble pressure, each flash also warm-started from that equilibrium at (T(1 +- 0.003), p(1 +- 0.01)) through both entry points, bubble/dew points with 4 non-default (inner, outer) option pairs}}; binary_vle (sub- and supercritical), bubble_point_line, dew_point_line on a pair subset; gc-PC-SAFT, SAFT-VR Mie, PR, PeTS, associating and ternary systems; water+hexane LLE flash, heteroazeotrope, lle diagram: conditions whenever Ok. Oracles: common T (exact), common p (1e-6), x_i phi_i equal (1e-5), phases distinct, specified composition/T/p echoed, p_bub >= p_dew, material balance 1e-12, feed between phase compositions, non-default inner options do not change the answer (1e-6), isobaric lle diagram on its temperature grid", ps.len(), if tier == Tier::Quick { ", every 4th" } else { "" }, TRS, XS, WS);
     ctx.assume("(T, x, pressure fraction) lattice; initial-guess dependence is C12's");
 }
